@@ -503,6 +503,10 @@ RULE = ("every retry-condition term of depth <= 2 (15 atoms incl. a plain callab
         "7x9x4 (attempts, elapsed, upcoming_sleep) grid, every built-in wait strategy on parameter grids x 13 attempt counts "
         "(up to 10^5, beyond double overflow) x seeds {None,0,1,2^32-1,>2^64}; each call evaluated and compared with truth "
         "tables / sums / documented bounds; non-trivial = terms whose value varies over the inputs")
+from vmc.tables import _ROUND6 as _R6  # noqa: E402
+
+RULE += _R6["C07"]
+
 
 
 # --------------------------------------------------- the same seed in another process (another hash salt) -------
